@@ -76,6 +76,7 @@ class Opts:
         self.force_strat = False
         self.shared_names_bias = 0.0  # probability that a new flow re-uses the NAME of an earlier flow of any kind (names need not be unique)
         self.rebalance_repeat_bias = 0.0  # probability of the sequence A, B, A' of population-split adjustments (A' repeats A's stratification and filter with other proportions; B overlaps A)
+        self.shuffle_strat_comps_bias = 0.0  # probability that a stratification lists its compartments in another order than the model does
         self.zero_adjust_bias = 0.0   # probability that a Multiply adjustment is the literal 0 (a stratum that receives / passes nothing)
         self.inexact_split_bias = 0.0  # probability that a literal split sums to one only within the API's tolerance (0.01), or that a split of two independent parameters is used (not checked by the API)
         self.shuffle_split_bias = 0.0  # probability that the population split is declared in another order than the strata
@@ -432,6 +433,9 @@ class Gen:
             comps = [n for n in self.orig if n in comps]
         else:
             comps = [n for n in self.orig if r.random() < 0.6] or [self.orig[0]]
+        if o.shuffle_strat_comps_bias > 0 and kind != "age" and not forced_mix and len(comps) >= 2 and r.random() < o.shuffle_strat_comps_bias:
+            comps = list(reversed(comps)); self.count("strat:comps_listed_out_of_model_order")
+            self._comps_shuffled = True
         op = {"op": "stratify", "kind": kind, "name": name, "strata": strata, "comps": comps}
         strata_final = sorted(strata, key=int) if kind == "age" else strata
         n = len(strata_final)
